@@ -16,6 +16,26 @@ CLAIMS = {
    "Decides the table-agreement clauses: the eight collection names of the statement are CollectionPath constants; the table Split consults and the union of the two validity tables contain all eight; Split/ValidCollectionIRI route through those tables (who-reads / who-calls on the SSA call graph); by abstract interpretation with the path fixed to each name, ofActor/ofObject/AddTo touch exactly the struct field whose jsonld term equals the name. A necessary condition of the join/split and owner laws for each name; the inverse law on arbitrary owner IRI strings is NOT decided.",
    "Trusted: go/types constant evaluation, go/ssa, the abstract interpreter. Declined: string-level inverse law (trailing slashes, percent-escapes, path/filepath host dependence); survival of an explicitly set actor collection through Of().",
    "constant-table agreement + abstract interpretation (SCCP) of the name->field switches", "3/C15"),
+ "C01": ("other",
+   "Decides that the three hand-written per-field tables agree for every (type, field) of the 14 vocabulary structs and the 3 tagged sub-structs: struct tag (declared term) vs JSON writer (prop-writer call sites whose value derives from the field, by SSA provenance) vs JSON reader (stores into the field fed by fastjson key lookups, via getter summaries): written at all, under its term, not under a sign-sensitive/inverted emptiness guard, read from its term and nothing else, every emitted key consumed, loaders read the same document, scalar helpers inverse by construction (bool unquoted, float shortest-round-trip, duration xsd both ways). ~3000 obligations, exhaustive over tagged fields. This is a necessary condition of the round-trip property per field (breaking a table entry drops/renames/moves the property for every value); value equality after a real round trip is NOT decided.",
+   "Trusted: go/types, go/ssa, apcheck prov.go/tables.go, fastjson accessors look up exactly the keys given. Declined: time-zone normalisation, list compaction, nested composition, text escaping (C06).",
+   "cross-table agreement by SSA provenance slicing (tag vs writer vs reader), exhaustive over struct fields", "3/C01"),
+ "C03": ("other",
+   "Decides that the gob writer and reader tables agree for every (type, field): constant-key updates of the property map whose value derives from the field vs stores into the field fed by comma-ok lookups of constant keys; same key both ways (case-sensitive), no shared key, no sign-sensitive/inverted guard, matching encode/decode helper pair, Marshal/UnmarshalBinary delegate to the gob pair. ~2500 obligations, exhaustive over tagged fields. Necessary condition per field of the gob round trip; value equality and encoding/gob internals are NOT decided. Type-name dispatch is C07.",
+   "Trusted: go/types, go/ssa, apcheck prov.go/tables.go; encoding/gob transmits a basic kind to a pointer of the same kind.",
+   "cross-table agreement by SSA provenance slicing (gob map writer vs reader), exhaustive over struct fields", "3/C03"),
+ "C05": ("other",
+   "Decides read-side completeness: every tagged field is read from its own term, collapsible text fields also from term+'Map', nothing foreign; item getters that switch on the JSON kind handle string/object/array; no getter re-looks a key up inside the value found under that key; every item position funnels into the one dispatcher JSONLoadItem (whose table C07 proves). Necessary conditions of 'decoding reads what the document says'; the re-encoding fixpoint and generated-document equality are NOT decided.",
+   "Trusted: go/types, go/ssa, getter summaries in tables.go, fastjson accessor semantics.",
+   "reader-table completeness against struct tags + getter shape/double-lookup/funnel rules on SSA", "3/C05"),
+ "C07": ("proof",
+   "Exhaustive enumeration of the finite space the property names: every vocabulary type name (56: Types, GenericTypes, empty) x {registry, JSON decode, gob encode, gob decode}: the abstract interpreter runs each dispatcher with the switch tag fixed to the name and hooks at their initial values; exactly one codec leaf must be reached and it must be the codec of the registry's Go type. Plus: family lists partition Types; IsObject/IsLink and the types' own IsObject/IsLink/IsCollection answers agree with the family list; the family's To* helpers accept the registry's type; JSONItemUnmarshal is reachable only for names outside the vocabulary, which yield (nil, error) with hooks unset. 582 obligations, all discharged.",
+   "Trusted: go/types, go/ssa, the abstract interpreter absint.go. Assumes hooks unset = initialisers in the source. Not decided: that decoded values carry the written id/properties (C01/C03), arbitrary user hooks.",
+   "abstract interpretation (conditional constant/dynamic-type propagation over SSA) of the four dispatchers, exhaustive over names", "3/C07"),
+ "C20": ("other",
+   "Decides the helper x nil-kind matrix by abstract interpretation of the SSA form: 79 in-scope helpers (exported functions and methods with an item-like parameter, found by signature; constructors and Equals excluded) x each parameter x {untyped nil, typed nil pointer of each of the 14 vocabulary struct types, nil list, list with one nil-kind member}: ~1200 abstract runs; an obligation fails when an executable instruction definitely faults (invoke on nil interface, value-receiver method or field access through nil pointer, failing assertion, method call on reflect.TypeOf(nil)). IsNil must evaluate to constant true, NotEmpty to false, ItemsEqual to 'both nil' on all nil-kinds. Exhaustive over the matrix; nil-likes stored in struct fields of otherwise valid values are covered only to one list level.",
+   "Trusted: go/ssa, absint.go transfer functions, dependencies summarised as unknown results. Unknown conditions make both branches executable (faults behind data-dependent guards are reported as possible). Callbacks are not entered.",
+   "abstract interpretation (nilness/dynamic-type propagation with executable edges) over the helper x nil-kind matrix", "3/C20"),
 }
 
 NOT_YET = "check not yet built in this round (planned, see DESIGN.md section 3); not claimed until it runs clean"
